@@ -274,7 +274,7 @@ def r3(ctx, chk):
     chk.floor(rule, n, 10, "reads of the reference time / system clock in the absolute and custom-format paths")
 
 
-def _context(f, node):
+def _context(f, node, _depth=0):
     """name of the accepted context of a clock read, or None"""
     chain = [node] + ancestors(f.node, node)
     for child, par in zip(chain, chain[1:]):
@@ -292,6 +292,15 @@ def _context(f, node):
             tgt = ast.unparse(par.targets[0])
             if tgt == "self.now":
                 return "initialises self.now"
+            # a plain alias (`now = self.now`): fine when every use of the alias sits in an accepted context
+            if child is node and par.value is node and len(par.targets) == 1 and isinstance(par.targets[0], ast.Name) and _depth < 2:
+                uses = [x for x in iter_own_nodes(f.node) if isinstance(x, ast.Name) and x.id == par.targets[0].id and isinstance(x.ctx, ast.Load)]
+                stores = [x for x in iter_own_nodes(f.node) if isinstance(x, ast.Name) and x.id == par.targets[0].id and isinstance(x.ctx, ast.Store)]
+                if uses and len(stores) == 1:
+                    # an attribute read of the alias (now.day) stands where self.now.day stood
+                    ctxs_ = [_context(f, (ancestors(f.node, u)[0] if isinstance(ancestors(f.node, u)[0], ast.Attribute) else u), _depth + 1) for u in uses]
+                    if all(c_ is not None for c_ in ctxs_):
+                        return "alias `%s`, every use of which is: %s" % (par.targets[0].id, sorted(set(ctxs_))[0])
             # today = datetime.today() under a missing-year guard; relative_base locals of _correct_for_month
             for test, pol in enclosing_tests(f.node, par):
                 t = ast.unparse(test)
